@@ -10,8 +10,9 @@
 * the two legacy conversions (`rms → r["master_secret"]`, `m1 → m["master_secret"]`, skipped when
   the legacy field is zero) as functions on `J`, generic in the field names (`LegacySpec`);
 * the layout logic of `RevocationRegistryDelta` (empties omitted on output, defaulted on input),
-  in the named form (JSON, named MessagePack) and in the positional form that compact
-  MessagePack (`rmp_serde::to_vec`) uses.
+  in the human-readable named form (JSON) and in the positional form that compact
+  MessagePack (`rmp_serde::to_vec`) uses (all four fields: the hand-written `Serialize` omits
+  empties in human-readable formats only).
 
 Leaves (big numbers, points, scalars) are opaque sub-trees here; their codecs are
 `Model/BigNum.lean`, `Model/Scalar.lean`, `Model/Curve.lean`.
@@ -61,6 +62,8 @@ inductive Kind where
   | mapStr (k : Kind)
 deriving Repr, BEq, DecidableEq, Inhabited
 
+/-- a field the hand-written `Serialize` impls leave out when `None` / empty — in HUMAN-READABLE
+formats only; binary formats (compact MessagePack is positional) always carry every field -/
 inductive Skip where
   | never | ifNone | ifEmpty
 deriving Repr, BEq, DecidableEq
@@ -73,8 +76,9 @@ structure Field where
 deriving Repr, BEq, DecidableEq
 
 inductive Layout where
-  /-- fields in declaration order; the legacy field accepted on input (if any); `true` if the
-  type only implements `Deserialize` -/
+  /-- fields in declaration order; the legacy field accepted on input (if any; it is the LAST slot
+  of the `…V1` helper struct, so that positional formats carrying the current fields decode);
+  `true` if the type only implements `Deserialize` -/
   | struct (fields : List Field) (legacy : Option String) (deOnly : Bool)
   | transparent (k : Kind)
   | unitEnum (variants : List String)
@@ -253,10 +257,10 @@ def recorded : List (List String) :=
    ["CredentialRevocationPrivateKey", "sk", "sc"],
    ["Accumulator", "transparent", "g2inf"],
    ["RevocationRegistry", "accum", "ref", "Accumulator"],
-   ["RevocationRegistryDelta", "prevAccum", "opt", "ref", "Accumulator", "skipIfNone", "default"],
+   ["RevocationRegistryDelta", "prevAccum", "opt", "ref", "Accumulator", "skipIfNone", "hrOnly", "default"],
    ["RevocationRegistryDelta", "accum", "ref", "Accumulator"],
-   ["RevocationRegistryDelta", "issued", "setU32", "skipIfEmpty", "default"],
-   ["RevocationRegistryDelta", "revoked", "setU32", "skipIfEmpty", "default"],
+   ["RevocationRegistryDelta", "issued", "setU32", "skipIfEmpty", "hrOnly", "default"],
+   ["RevocationRegistryDelta", "revoked", "setU32", "skipIfEmpty", "hrOnly", "default"],
    ["RevocationKeyPublic", "z", "pair"],
    ["RevocationKeyPrivate", "gamma", "sc"],
    ["Tail", "transparent", "g2"],
@@ -337,7 +341,7 @@ def recorded : List (List String) :=
    ["NonRevocProofXList", "m_prime", "sc"],
    ["NonRevocProofXList", "t", "sc"],
    ["NonRevocProofXList", "t_prime", "sc"],
-   ["NonRevocProofXList", "m2", "opt", "sc", "skipIfNone"],
+   ["NonRevocProofXList", "m2", "opt", "sc", "skipIfNone", "hrOnly"],
    ["NonRevocProofXList", "s", "sc"],
    ["NonRevocProofXList", "c", "sc"],
    ["NonRevocProofCList", "e", "g1"],
@@ -347,8 +351,8 @@ def recorded : List (List String) :=
    ["NonRevocProofCList", "w", "g2"],
    ["NonRevocProofCList", "s", "g2"],
    ["NonRevocProofCList", "u", "g2"],
-   ["CredentialPrimaryPublicKey", "rms", "legacy", "master_secret"],
-   ["PrimaryEqualProof", "m1", "legacy", "master_secret"]]
+   ["CredentialPrimaryPublicKey", "rms", "legacy", "master_secret", "last"],
+   ["PrimaryEqualProof", "m1", "legacy", "master_secret", "last"]]
 
 /-- the primitives, as types of their own (feature `verif` re-exports the wrappers) -/
 def primTable : List (String × Layout) :=
@@ -374,7 +378,7 @@ def Kind.render : Kind → List String
 
 def Field.render (pre : List String) (deOnly : Bool) (f : Field) : List String :=
   pre ++ [f.name] ++ f.kind.render ++
-    (match f.skip with | .never => [] | .ifNone => ["skipIfNone"] | .ifEmpty => ["skipIfEmpty"]) ++
+    (match f.skip with | .never => [] | .ifNone => ["skipIfNone", "hrOnly"] | .ifEmpty => ["skipIfEmpty", "hrOnly"]) ++
     (if f.dflt then ["default"] else []) ++ (if deOnly then ["deonly"] else [])
 
 def renderEntry (e : String × Layout) : List (List String) :=
@@ -386,7 +390,7 @@ def renderEntry (e : String × Layout) : List (List String) :=
 
 def renderLegacy (e : String × Layout) : List (List String) :=
   match e.2 with
-  | .struct _ (some l) _ => [[e.1, l, "legacy", "master_secret"]]
+  | .struct _ (some l) _ => [[e.1, l, "legacy", "master_secret", "last"]]
   | _ => []
 
 /-- fields first (declaration order), then the legacy fields; every entry is the token list of
@@ -401,11 +405,13 @@ structure LegacySpec where
   req : List String
   /-- the map that receives the legacy value under `"master_secret"` -/
   mapF : String
-  /-- the legacy field (`#[serde(default)]` in the `…V1` helper struct) -/
+  /-- the legacy field (`#[serde(default)]`, last slot of the `…V1` helper struct) -/
   legacyF : String
+  /-- position of the map among the fields in declaration order -/
+  mapPos : Nat
 
-def keySpec : LegacySpec := ⟨["n", "s", "rctxt", "z"], "r", "rms"⟩
-def eqProofSpec : LegacySpec := ⟨["revealed_attrs", "a_prime", "e", "v", "m2"], "m", "m1"⟩
+def keySpec : LegacySpec := ⟨["n", "s", "rctxt", "z"], "r", "rms", 2⟩
+def eqProofSpec : LegacySpec := ⟨["revealed_attrs", "a_prime", "e", "v", "m2"], "m", "m1", 4⟩
 
 def getAll : List String → Obj → Option (List J)
   | [], _ => some []
@@ -450,6 +456,25 @@ def convertLegacy (S : LegacySpec) (isZero : J → Bool) : J → J
 def encodeCurrent (S : LegacySpec) (d : Decoded) : J :=
   .obj ((S.req.zip d.leaves) ++ [(S.mapF, .obj d.map)])
 
+/-- derived `Serialize` in a positional format (compact MessagePack): the fields in declaration
+order, the map at its position -/
+def encodeCurrentSeq (S : LegacySpec) (d : Decoded) : List J :=
+  d.leaves.take S.mapPos ++ [.obj d.map] ++ d.leaves.drop S.mapPos
+
+/-- the hand-written `Deserialize` on a sequence: the `…V1` helper read positionally — the current
+fields in declaration order, then the legacy slot, which defaults when the sequence ends before it -/
+def decodeLegacySeq (S : LegacySpec) (isZero : J → Bool) (l : List J) : Option Decoded :=
+  let n := S.req.length + 1
+  if l.length < n then none
+  else
+    match l.getD S.mapPos .null with
+    | .obj m =>
+      let leaves := (l.take S.mapPos) ++ ((l.take n).drop (S.mapPos + 1))
+      some ⟨leaves, match l.drop n with
+        | v :: _ => if isZero v then m else mapInsert "master_secret" v m
+        | [] => m⟩
+    | _ => none
+
 /-! ## `RevocationRegistryDelta` -/
 
 structure Delta where
@@ -487,9 +512,15 @@ def decodeDelta : J → Option Delta
     | _, _, _ => none
   | _ => none
 
-/-- what compact MessagePack (`rmp_serde::to_vec`: structs as arrays) writes: the same fields,
-the skipped ones simply missing -/
+/-- what a binary format writes (hand-written `Serialize`, `is_human_readable() = false`): all four
+fields, `None` as nil, empty sets as empty arrays — compact MessagePack as the sequence of the
+values, named MessagePack as the map with all four keys -/
 def encodeDeltaSeq (d : Delta) : List J :=
+  [match d.prev with | some a => a | none => .null, d.acc, natArr d.issued, natArr d.revoked]
+
+/-- what the derived `Serialize` with `skip_serializing_if` used to write positionally (before the
+repair): the skipped fields simply missing, which shifts the others -/
+def encodeDeltaSeqSkipping (d : Delta) : List J :=
   (match d.prev with | some a => [a] | none => []) ++ [d.acc] ++
     (if d.issued = [] then [] else [natArr d.issued]) ++
     (if d.revoked = [] then [] else [natArr d.revoked])
